@@ -60,6 +60,9 @@ def learn_inplace_binary_to_binary(binary_file_paths,
                 if error != NO_ERROR:
                     break
 
+        if error != NO_ERROR:
+            break
+
     if (error != NO_ERROR):
         raise IOError(f'binary files does not have proper format, error code {error}\n{ERROR_CODES}')
 
@@ -106,6 +109,8 @@ def learn_inplace_binary_to_real(binary_file_paths,
                                                    n_outcome_vector_dimensions,
                                                    start_val,
                                                    end_val)
+      if error != NO_ERROR:
+        break
     if (error == ONLY_ONE_OUTCOME_PER_EVENT):
         raise ValueError('error code %i, legal number of outcomes per event is exactly 1')
     if (error == MAGIC_NUMBER_DOES_NOT_MATCH or error == VERSION_NUMBER_DOES_NOT_MATCH):
@@ -157,6 +162,8 @@ def learn_inplace_real_to_binary(binary_file_paths,
                                                    n_cue_vector_dimensions,
                                                    start_val,
                                                    end_val)
+      if error != NO_ERROR:
+        break
     if (error == ONLY_ONE_OUTCOME_PER_EVENT):
         raise ValueError('error code %i, legal number of outcomes per event is exactly 1')
     if (error == MAGIC_NUMBER_DOES_NOT_MATCH or error == VERSION_NUMBER_DOES_NOT_MATCH):
@@ -211,6 +218,8 @@ def learn_inplace_real_to_real(binary_file_paths,
                                                  n_outcome_vector_dimensions,
                                                  start_val,
                                                  end_val)
+      if error != NO_ERROR:
+        break
     if (error == ONLY_ONE_OUTCOME_PER_EVENT):
         raise ValueError('error code %i, legal number of outcomes per event is exactly 1')
     if (error == MAGIC_NUMBER_DOES_NOT_MATCH or error == VERSION_NUMBER_DOES_NOT_MATCH):
